@@ -27,9 +27,13 @@ try:
     (vc / 'evidence').mkdir(exist_ok=True)
     env = dict(os.environ, NLV_REPO=str(wt), PYTHONPATH=str(wt))
     for s in seeds:
-        meta = json.loads((V / 'seeded' / s / 'meta.json').read_text())
-        cks = checks or [meta['property']]
-        r = subprocess.run(['git', '-C', str(wt), 'apply', str(V / 'seeded' / s / 'patch.diff')])
+        if s == 'CLEAN':          # control: the unchanged tree, every check must pass in the scratch set-up too
+            cks = checks or claimed
+            r = subprocess.run(['true'])
+        else:
+            meta = json.loads((V / 'seeded' / s / 'meta.json').read_text())
+            cks = checks or [meta['property']]
+            r = subprocess.run(['git', '-C', str(wt), 'apply', str(V / 'seeded' / s / 'patch.diff')])
         if r.returncode != 0:
             print(s, 'PATCH DOES NOT APPLY', flush=True); continue
         try:
